@@ -203,6 +203,24 @@ func (e *Engine) evCall(c *ast.CallExpr, st *State) []Value {
 					return []Value{{sx("select", h, key), e.typeOf(c)}}
 				}
 			}
+		case "lastErr":
+			// lastErr("f"): the error-typed result of the latest call to f (functions listed in `opt track`)
+			if e.isSpecHelper(id) {
+				tv := e.pk.Info.Types[c.Args[0]]
+				if tv.Value == nil {
+					e.fail(c.Pos(), "lastErr needs a constant function name")
+				}
+				name := strings.Trim(tv.Value.ExactString(), "\"")
+				for i := 0; i < 4; i++ {
+					if v, ok := st.vars[e.trackKey(name, i)]; ok {
+						if _, isI := types.Unalias(v.Typ).Underlying().(*types.Interface); isI {
+							return []Value{{v.T, e.typeOf(c)}}
+						}
+					}
+				}
+				// no call yet on this path: nil
+				return []Value{e.zero(e.typeOf(c))}
+			}
 		case "entry":
 			// entry(x): the value of x when the innermost loop whose invariant is being evaluated was entered
 			if e.isSpecHelper(id) {
@@ -486,7 +504,33 @@ func (e *Engine) havocResults(st *State, sig *types.Signature, hint string) []Va
 	return out
 }
 
+// callStatic performs a call to a statically known function and, for functions named in `opt track`, records
+// the results in ghost variables (read in contracts with lastErr("name")).
 func (e *Engine) callStatic(c *ast.CallExpr, fn *types.Func, sig *types.Signature, recv *Value, args []Value, st *State) []Value {
+	res := e.callStatic0(c, fn, sig, recv, args, st)
+	if e.spec == 0 && e.c != nil {
+		for _, n := range strings.Fields(e.c.Opts["track"]) {
+			if n == fn.Name() {
+				for i, r := range res {
+					st.vars[e.trackKey(n, i)] = r
+				}
+			}
+		}
+	}
+	return res
+}
+
+func (e *Engine) trackKey(name string, i int) *synth {
+	k := fmt.Sprintf("callres:%s:%d", name, i)
+	if s, ok := e.ghosts[k]; ok {
+		return s
+	}
+	s := &synth{k}
+	e.ghosts[k] = s
+	return s
+}
+
+func (e *Engine) callStatic0(c *ast.CallExpr, fn *types.Func, sig *types.Signature, recv *Value, args []Value, st *State) []Value {
 	full := fn.FullName()
 	if res, ok := e.stdStub(full, c, recv, args, sig, st); ok {
 		return res
@@ -892,7 +936,20 @@ func (e *Engine) evBuiltin(name string, c *ast.CallExpr, st *State) []Value {
 			return []Value{r}
 		}
 	case "panic":
-		e.ev(c.Args[0], st)
+		pv := e.ev(c.Args[0], st)
+		if len(e.c.PanicPost) > 0 && len(e.inlineStack) == 0 && e.spec == 0 {
+			if obj := e.resVarObj(e.pk, e.c, "panicval"); obj != nil {
+				s2 := st.clone()
+				s2.vars[obj] = e.coerce(pv, obj.Type(), s2)
+				site := e.callSite("panic")
+				for i, pp := range e.c.PanicPost {
+					e.spec++
+					v := e.ev(pp.Expr, s2)
+					e.spec--
+					e.obligeNamed(st, fmt.Sprintf("panicpost#%d@%d", i, site), "post", v.T, c.Pos(), fmt.Sprintf("value of the panic satisfies %q", pp.Text), pp.Prop)
+				}
+			}
+		}
 		if !e.c.Panics {
 			e.oblige(st, "panic", "false", c.Pos(), "explicit panic is unreachable: "+exprStr(c))
 		}
